@@ -81,7 +81,7 @@ static void viol(const char *sig, const char *fmt, ...)
 static void lib_chunks(const unsigned char *m, const size_t *l, int nl, unsigned char *out, char *str)
 {
     PCryptoHash *h = p_crypto_hash_new(ALG[A].type); psize len = ALG[A].dlen; size_t off = 0; int i; pchar *s;
-    if (!h) { fprintf(stderr, "p_crypto_hash_new failed\n"); exit(2); }
+    if (!h) { viol("new-failed", "p_crypto_hash_new returned NULL for a supported algorithm"); exit(1); }
     for (i = 0; i < nl; i++) { p_crypto_hash_update(h, m + off, l[i]); off += l[i]; }
     s = p_crypto_hash_get_string(h);
     if (s) { strncpy(str, s, 129); p_free(s); } else str[0] = 0;
